@@ -39,6 +39,9 @@ func (rn *runner) reportDet(cs *Case, res *evalRes) {
 		if small.Fwd {
 			mode = "fwd"
 		}
+		if small.Node {
+			mode = "node"
+		}
 		rp := small.replay(mode)
 		rp.Line, rp.Reply = sres.line, sres.reply
 		rn.c.Violation(w.class, fmt.Sprintf("%s on: %s", w.what, sres.line), rp, w.noInput)
@@ -144,9 +147,12 @@ func main() {
 	for i := 0; i < nDet; i++ {
 		cr := r.Fork(uint64(i))
 		var cs *Case
-		if cr.Chance(65) {
+		switch x := cr.Intn(100); {
+		case x < 55:
 			cs = genG1(cr, false, 5+cr.Intn(36))
-		} else {
+		case x < 75:
+			cs = genG3(cr)
+		default:
 			cs = genG2(cr)
 		}
 		res := evalDet(or, cs)
@@ -165,9 +171,12 @@ func main() {
 	for i := 0; i < nFwd; i++ {
 		cr := r.Fork(uint64(2_000_000 + i))
 		var cs *Case
-		if cr.Chance(80) {
+		switch x := cr.Intn(100); {
+		case x < 60:
 			cs = genG1(cr, false, 5+cr.Intn(25))
-		} else {
+		case x < 80:
+			cs = genG3(cr)
+		default:
 			cs = genG2(cr)
 		}
 		cs.Fwd = true
@@ -182,6 +191,54 @@ func main() {
 		}
 	}
 	c.Extra["cases_geth_adapter"] = nFwd
+
+	// ---------- mode D: the real GethL1StateProvider against a scripted Ethereum JSON-RPC node ----------
+	nNode, nProv, nLoop := nDet/60, nDet/400, nDet/400
+	for i := 0; i < nNode; i++ {
+		cr := r.Fork(uint64(3_000_000 + i))
+		var cs *Case
+		switch x := cr.Intn(100); {
+		case x < 40:
+			cs = genG1(cr, false, 5+cr.Intn(20))
+		case x < 85:
+			cs = genG3(cr)
+		default:
+			cs = genG2(cr)
+		}
+		cs.Node = true
+		withNullPolls(cs, cr)
+		res := evalDet(or, cs)
+		c.Hist["mode:geth-node"]++
+		if res.unconfirmed {
+			c.Hist["mode:geth-node:unconfirmed-rerun"]++
+		}
+		rn.account(cs, res)
+		if i%100 == 5 {
+			c.Sample(map[string]string{"mode": "node", "gen": cs.Gen, "line": res.line, "reply": res.reply})
+		}
+		if len(res.verdicts) > 0 {
+			rn.reportDet(cs, res)
+		}
+	}
+	for i := 0; i < nProv; i++ {
+		for _, f := range providerChecks(r.Fork(uint64(4_000_000 + i))) {
+			if !rn.reported[f.class] {
+				rn.reported[f.class] = true
+				c.Violation(f.class, f.what, map[string]any{"mode": "provider", "seed": c.Seed, "index": i}, false)
+			}
+		}
+		c.Hist["mode:geth-node:provider-checks"]++
+		c.Count(fmt.Sprintf("provider-check-%d", i), true)
+	}
+	for i := 0; i < nLoop; i++ {
+		cs, res := evalNodeLoop(or, r.Fork(uint64(5_000_000+i)))
+		c.Hist["mode:geth-node:run"]++
+		rn.account(cs, res)
+		if len(res.verdicts) > 0 {
+			rn.reportRun(cs, res)
+		}
+	}
+	c.Extra["cases_geth_node"] = map[string]int{"deterministic": nNode, "provider_checks": nProv, "run_loop": nLoop}
 
 	// ---------- mode B ----------
 	for i := 0; i < nRun; i++ {
